@@ -129,6 +129,9 @@ class HProxy:
     def is_integer(self, x):
         return self._get().is_integer(x)
 
+    def consume(self, make_generator, body):
+        return self._get().consume(make_generator, body)
+
     def float_of_bits(self, r, n):
         return self._get().float_of_bits(r, n)
 
@@ -394,6 +397,22 @@ class SymH:
 
     def mod(self, a, b):
         return ops.simp_int(zint(a) % zint(b))
+
+    def consume(self, make_generator, body):
+        """for v in make_generator(): body(v) -- with the loop body run at each yield point (the interpreter executes
+        generators eagerly, so the consumer is handed in as a hook)"""
+        I = self.I
+        prev = getattr(I, "yield_hook", None)
+
+        def hook(interp, value, fn):
+            interp.call(body, [value])
+            return None
+
+        I.yield_hook = hook
+        try:
+            I.call(make_generator, [])
+        finally:
+            I.yield_hook = prev
 
     def is_integer(self, x):
         if isinstance(x, (int, SInt)):
@@ -683,6 +702,10 @@ class NativeH:
 
     def is_integer(self, x):
         return float(x).is_integer()
+
+    def consume(self, make_generator, body):
+        for v in make_generator():
+            body(v)
 
     def float_bits(self, v, n):
         import struct
